@@ -96,6 +96,20 @@ def Atom(var, op, term):
     return ("atom", var, op, term)
 
 
+def assume_false(f, atom):
+    """f with the given atom replaced by FALSE (simplified)."""
+    t = f[0]
+    if t == "atom":
+        return FALSE if f == atom else f
+    if t == "and":
+        return And(*(assume_false(g, atom) for g in f[1:]))
+    if t == "or":
+        return Or(*(assume_false(g, atom) for g in f[1:]))
+    if t == "not":
+        return Not(assume_false(f[1], atom))
+    return f
+
+
 def atoms_of(f, acc=None):
     acc = set() if acc is None else acc
     if f[0] == "atom":
@@ -279,7 +293,12 @@ class MethodAnalysis:
         self.order = 0
         self.loop_counter = 0
         self.if_counter = 0
-        self.established = set()  # (table, term) keys known present / accepted
+        self.established = set()  # (table, term) keys known present / accepted; ("!table", term) keys known absent
+        self.clobbers = []  # (table, key term, stmt): stores under a key whose presence is unknown
+        self.cover_clobbers = []  # ... where the key may have been created earlier in this very call
+        self.test_alias = {}  # local flag name -> the membership test it was assigned from
+        self.key_version = {}  # table -> number of deletions so far (key-set atoms are versioned by it)
+        self.key_cover = {}  # table -> [formula over $]: IDs made keys by a completed creation loop of this call
         self.accepted = set()  # key terms accepted by an IDDict store
         self.memb = set()  # (rel-with-side, edge term, node term) memberships known to hold
         self.hashable_sources = set()
@@ -494,6 +513,12 @@ class MethodAnalysis:
             self.bind_target(st.target, dom, src, caller, lid, st, env)
         benv = dict(env)
         self.block(st.body, benv, conds, loops + (lid,))
+        # a completed loop that leaves every element of its domain a key of N/E (created or found present)
+        sc = self.loop_vars.get(lid)
+        if isinstance(sc, Sc) and sc.dom is not None and not any(isinstance(x, (ast.Continue, ast.Break, ast.Return)) for b in st.body for x in ast.walk(b)):
+            for t in ("N", "E"):
+                if (t, sc.term) in self.established:
+                    self.key_cover.setdefault(t, []).append((sc.dom.f, tuple(conds)))
         # names assigned in the loop body stay visible afterwards
         for k, v in benv.items():
             if k not in env:
@@ -544,6 +569,9 @@ class MethodAnalysis:
         """Record facts implied by taking a branch: presence of keys, memberships, emptiness, None-checks."""
         if isinstance(test, ast.UnaryOp) and isinstance(test.op, ast.Not):
             return self.learn(test.operand, not truth, env)
+        if isinstance(test, ast.Name) and test.id in self.test_alias:
+            # flag = k not in table ... if flag:
+            return self.learn(self.test_alias[test.id], truth, env)
         if isinstance(test, ast.BoolOp):
             if isinstance(test.op, ast.And) and truth:
                 for v in test.values:
@@ -566,11 +594,15 @@ class MethodAnalysis:
                 return
             try:
                 k = self.ev(left, env, (), (), test, quiet=True)
+                if isinstance(right, ast.Call) and isinstance(right.func, ast.Attribute) and right.func.attr == "keys" and not right.args:
+                    right = right.func.value  # `k in table.keys()` is `k in table`
                 r = self.ev(right, env, (), (), test, quiet=True)
             except Unsupported:
                 return
             if isinstance(k, CallerData):
                 k = Sc(k.term, caller=True)
+            if isinstance(k, Sc) and not present and isinstance(r, Table):
+                self.establish_absent(r.name, k.term)
             if isinstance(k, Sc) and present:
                 if isinstance(r, Table):
                     self.establish_pre(r.name, k.term)
@@ -603,9 +635,9 @@ class MethodAnalysis:
             s = self.entry_set(it)
             return s, None, False
         if isinstance(it, Table):
-            return SetV(Atom("$", "in", f"keys({it.name})")), None, False
+            return SetV(self.keys_atom(it.name) if it.name in ("N", "E") else Atom("$", "in", f"keys({it.name})")), None, False
         if it in ("NODEVIEW", "EDGEVIEW"):
-            return SetV(Atom("$", "in", "keys(N)" if it == "NODEVIEW" else "keys(E)")), None, False
+            return SetV(self.keys_atom("N" if it == "NODEVIEW" else "E")), None, False
         if isinstance(it, CallerData) and self.is_trusted_term(it.term):
             self.hashable_sources.add(it.term); self.nonnull_sources.add(it.term)
             return SetV(Atom("$", "in", it.term), source=it.term, materialized=True, caller=False), it.term, False
@@ -642,9 +674,14 @@ class MethodAnalysis:
                 else:
                     self.memb.add((rel, sc.term, kterm))
                     self.establish_pre("E", sc.term)
-            for a in atoms_of(dom.f):
-                if a[2] == "in" and a[3].startswith("keys("):
-                    self.establish_pre(a[3][5:-1], sc.term)
+            cur_keys = {self.keys_atom(t)[3]: t for t in ("N", "E")}
+            for a in positive_conjuncts(dom.f):
+                if a[0] == "atom" and a[2] == "in" and a[3] in cur_keys:
+                    self.establish_pre(cur_keys[a[3]], sc.term)
+            conj = dom.f[1:] if dom.f[0] == "and" else (dom.f,)
+            for c in conj:
+                if c[0] == "not" and c[1][0] == "atom" and c[1][2] == "in" and c[1][3] in cur_keys and not self.covers(cur_keys[c[1][3]], (), definite=False):
+                    self.establish_absent(cur_keys[c[1][3]], sc.term)
             for a in positive_conjuncts(dom.f):
                 if a[0] == "atom" and a[2] == "in" and "[" in a[3] and a[3][0] in "EN":
                     head, _, rest = a[3].partition("[")
@@ -778,7 +815,51 @@ class MethodAnalysis:
             return v
         if isinstance(v, Entry) and not v.directed_dict:
             return self.entry_set(v)
+        if isinstance(v, Table) and v.name in ("N", "E"):
+            return SetV(self.keys_atom(v.name))
+        if v in ("NODEVIEW", "EDGEVIEW"):
+            return SetV(self.keys_atom("N" if v == "NODEVIEW" else "E"))
         return None
+
+    def keys_atom(self, t):
+        """`$ is a key of table t` as of the last deletion from t (keys only grow in between)."""
+        ver = self.key_version.get(t, 0)
+        return Atom("$", "in", f"keys({t})" + (f"#{ver}" if ver else ""))
+
+    def _valid(self, f):
+        """Is formula f (atoms taken as independent booleans) true under every assignment? None if too large."""
+        ats = sorted(atoms_of(f))
+        if len(ats) > 14:
+            return None
+        for bits in itertools.product((False, True), repeat=len(ats)):
+            if not evalf(f, dict(zip(ats, bits))):
+                return False
+        return True
+
+    def covers(self, t, conds, definite=True):
+        """Cover formulas usable at a point with path conditions `conds`: those recorded under a prefix of them
+        (definite), or all of them (possible)."""
+        conds = tuple(conds)
+        return [f for f, c in self.key_cover.get(t, []) if not definite or conds[: len(c)] == c]
+
+    def dom_all_keys(self, t, k, conds):
+        """Every element of the loop variable's domain is a key of t now (present before, or created by a completed loop)."""
+        if k.dom is None:
+            return False
+        return self._valid(Or(Not(k.dom.f), self.keys_atom(t), *self.covers(t, conds))) is True
+
+    def dom_no_keys(self, t, k, conds):
+        """No element of the domain is a key of t now."""
+        if k.dom is None:
+            return False
+        return self._valid(Not(And(k.dom.f, Or(self.keys_atom(t), *self.covers(t, conds, definite=False))))) is True
+
+    def dom_hits_cover_only(self, t, k, conds):
+        """The domain excludes the keys present before but may contain IDs created earlier in this call."""
+        cs = self.covers(t, conds, definite=False)
+        if k.dom is None or not cs:
+            return False
+        return self._valid(Not(And(k.dom.f, self.keys_atom(t)))) is True and self._valid(Not(And(k.dom.f, Or(*cs)))) is False
 
     def entry_atom_term(self, rel, side, kterm):
         return f"{rel}{('.' + side) if side else ''}[{kterm}]"
@@ -838,8 +919,43 @@ class MethodAnalysis:
         self.established.add(({"N": "NATTR", "E": "EATTR"}[base], term))
         self.accepted.add(term)
 
+    def establish_absent(self, tname, term):
+        """The key is absent (from the table and, by the invariant, from its paired attribute table)."""
+        base = {"NATTR": "N", "EATTR": "E"}.get(tname, tname)
+        self.established.add(("!" + base, term))
+        self.established.add(("!" + {"N": "NATTR", "E": "EATTR"}[base], term))
+
+    def term_absent(self, tname, term):
+        """Known not to be a key of the table: tested absent on this path, an automatic ID (fresh by the counter
+        premise R-FRESH), or a merge of such terms."""
+        if ("!" + tname, term) in self.established:
+            return True
+        if term.startswith("auto@"):
+            return tname in ("E", "EATTR")
+        for head in ("ite(", "phi("):
+            if term.startswith(head) and term.endswith(")"):
+                inner = term[len(head):-1]
+                parts, depth, cur = [], 0, ""
+                for ch in inner:
+                    if ch == "(":
+                        depth += 1
+                    elif ch == ")":
+                        depth -= 1
+                    if ch == "|" and depth == 0:
+                        parts.append(cur)
+                        cur = ""
+                    else:
+                        cur += ch
+                parts.append(cur)
+                return all(self.term_absent(tname, p) for p in parts)
+        return False
+
     def table_load(self, tname, k: Sc, st, conds, loops):
         if self.is_established(tname, k.term):
+            return
+        base = {"NATTR": "N", "EATTR": "E"}.get(tname, tname)
+        if self.dom_all_keys(base, k, conds):
+            self.establish_pre(tname, k.term)
             return
         if k.caller or k.term.startswith("P:") or "P:" in k.term:
             self.raise_point(f"lookup of caller-supplied ID `{k.term}` in {tname}", st, conds, loops)
@@ -1056,6 +1172,15 @@ class MethodAnalysis:
                 if it.rel == "CALL":
                     self.events.append(Event("CALL", "+", None, None, None, xconds(it.conds), xloops(it.loops), it.stmt, self.tick(), note=it.note))
                     continue
+                extra = it.extra
+                if it.note.startswith("maybe-old|"):
+                    atom_term = it.note.split("|", 1)[1]
+                    key_sc = it.edge if it.edge is not None else it.node
+                    tname = it.rel.split(".")[0]
+                    if key_sc is not None and self.term_absent(tname, xsc(key_sc).term):
+                        extra = assume_false(extra, Atom("$", "in", atom_term))
+                        if extra == FALSE:
+                            continue
                 toks = set()
                 for (src, i) in it.toks:
                     nsrc = f"{xterm(src)} [in {m}#{tag}]"
@@ -1063,7 +1188,7 @@ class MethodAnalysis:
                     while len(lst) < len(sub.consumed.get(src, [])):
                         lst.append(sub.consumed[src][len(lst)])
                     toks.add((nsrc, i))
-                self.events.append(Event(it.rel, it.sign, xsc(it.edge), xsc(it.node), xsc(it.key), xconds(it.conds), xloops(it.loops), it.stmt, self.tick(), extra=xformula(it.extra), note=it.note + f" [in {m}]", toks=frozenset(toks)))
+                self.events.append(Event(it.rel, it.sign, xsc(it.edge), xsc(it.node), xsc(it.key), xconds(it.conds), xloops(it.loops), it.stmt, self.tick(), extra=xformula(extra), note=it.note + f" [in {m}]", toks=frozenset(toks)))
             else:
                 self.raises.append(RaisePoint(it.kind, it.stmt, xconds(it.conds), xloops(it.loops), self.tick(), it.text + f" [in {m}]", it.callee, it.validated))
         # the helper returned normally: none of its early exits (raise under a condition) fired
@@ -1242,6 +1367,12 @@ class MethodAnalysis:
         val = self.ev(st.value, env, conds, loops, st)
         for t in st.targets:
             self.assign_to(t, val, st, env, conds, loops)
+            if isinstance(t, ast.Name):
+                self.test_alias.pop(t.id, None)
+                v = st.value
+                core = v.operand if isinstance(v, ast.UnaryOp) and isinstance(v.op, ast.Not) else v
+                if isinstance(core, ast.Compare) and len(core.ops) == 1 and isinstance(core.ops[0], (ast.In, ast.NotIn)):
+                    self.test_alias[t.id] = v
         # `local = {...}; self._edge[k] = local`: from now on the local name denotes the stored entry (same object)
         if isinstance(st.value, ast.Name) and isinstance(val, (DiLocal, SetV)) and len(st.targets) == 1 and isinstance(st.targets[0], ast.Subscript):
             base = self.ev(st.targets[0].value, env, conds, loops, st, quiet=True)
@@ -1287,7 +1418,13 @@ class MethodAnalysis:
             if (k.caller or "P:" in k.term) and k.term not in self.accepted and not (k.source and k.source in self.hashable_sources and k.source in self.nonnull_sources):
                 self.raise_point(f"IDDict store under caller-supplied ID `{k.term}`", st, conds, loops)
             new = self.key_is_new(t, k)
+            # presence unknown: the store may replace an entry that exists (its old content is dropped)
+            base_t = {"NATTR": "N", "EATTR": "E"}.get(t, t)
+            maybe = new and not self.term_absent(t, k.term) and not self.dom_no_keys(base_t, k, conds) and not getattr(self, "assume_new_keys", False)
+            if maybe and t in ("N", "E") and self.dom_hits_cover_only(base_t, k, conds):
+                self.cover_clobbers.append((t, k.term, st))
             self.accepted.add(k.term)
+            self.established.discard(("!" + t, k.term))
             if t in ("NATTR", "EATTR"):
                 if new:
                     self.emit(Event("K:" + t, "+", None, None, k, conds, loops, st, self.tick()))
@@ -1297,6 +1434,10 @@ class MethodAnalysis:
             if new:
                 self.emit(Event("K:" + t, "+", None, None, k, conds, loops, st, self.tick()))
             self.established.add((t, k.term))
+            if maybe:
+                new = False
+                self.clobbers.append((t, k.term, st))
+                self.maybe_store = (t, k.term)
             if self.directed:
                 if isinstance(val, DiLocal):
                     contents = {"in": val.ins, "out": val.outs}
@@ -1317,6 +1458,7 @@ class MethodAnalysis:
                     else:
                         raise Unsupported(f"{self.fn.fq}:{st.lineno}: value stored in a member table is not a set expression the walker recognises ({type(val).__name__})")
                 self.store_content(t, None, k, sv, new, st, conds, loops)
+            self.maybe_store = None
             return
         if isinstance(base, Entry) and base.directed_dict:
             side = key.const if isinstance(key, Sc) and key.const in ("in", "out") else None
@@ -1335,15 +1477,19 @@ class MethodAnalysis:
     def store_content(self, t, side, k: Sc, sv: SetV, new, st, conds, loops):
         rel = t + (("." + side) if side else "")
         ckey = (t, side, k.term)
+        tag = "content"
+        if getattr(self, "maybe_store", None) == (t, k.term) and ckey not in self.entry_content:
+            # presence of the key unknown: the old content is a symbolic atom a caller that knows the key absent can drop
+            tag = f"maybe-old|{self.entry_atom_term(t, side, k.term)}"
         old = FALSE if new else (self.entry_content[ckey].f if ckey in self.entry_content else Atom("$", "in", self.entry_atom_term(t, side, k.term)))
         if sv.source and not sv.materialized:
             pass
         gain = And(sv.f, Not(old))
         loss = And(old, Not(sv.f))
         if gain != FALSE:
-            self.emit(Event(rel, "+", k if t == "E" else None, k if t == "N" else None, None, conds, loops, st, self.tick(), extra=gain, note="content", toks=sv.toks))
+            self.emit(Event(rel, "+", k if t == "E" else None, k if t == "N" else None, None, conds, loops, st, self.tick(), extra=gain, note=tag, toks=sv.toks))
         if loss != FALSE:
-            self.emit(Event(rel, "-", k if t == "E" else None, k if t == "N" else None, None, conds, loops, st, self.tick(), extra=loss, note="content", toks=sv.toks))
+            self.emit(Event(rel, "-", k if t == "E" else None, k if t == "N" else None, None, conds, loops, st, self.tick(), extra=loss, note=tag, toks=sv.toks))
         self.entry_content[ckey] = SetV(sv.f, source=sv.source, materialized=sv.materialized, caller=sv.caller, toks=sv.toks)
 
     def delete(self, base, key, st, env, conds, loops):
@@ -1362,6 +1508,10 @@ class MethodAnalysis:
                     content = self.entry_content[ckey].f if ckey in self.entry_content else Atom("$", "in", self.entry_atom_term(t, side, k.term))
                     self.emit(Event(rel, "-", k if t == "E" else None, k if t == "N" else None, None, conds, loops, st, self.tick(), extra=content, note="entry deleted"))
             self.established.discard((t, k.term))
+            self.established.add(("!" + t, k.term))
+            if t in ("N", "E"):
+                self.key_version[t] = self.key_version.get(t, 0) + 1
+                self.key_cover.pop(t, None)
             return
         if isinstance(base, Entry):
             raise Unsupported(f"{self.fn.fq}:{st.lineno}: del on a stored member set")
